@@ -500,3 +500,80 @@ func (a *FA) CondsDNF(blk *ssa.BasicBlock, depth int) [][]Cond {
 	}
 	return out
 }
+
+// ReportEOFSource: an end-of-input error (io.EOF / io.ErrUnexpectedEOF written as a literal) may only be produced
+// as the translation of what a read on the stream reported: on an edge where the error of a stream read is known
+// non-nil (or equal to io.EOF), or where that read's own byte count was compared with the requested size. A
+// function that *predicts* truncation (from Len(), Size(), a remembered offset) returns without draining the
+// reader: the count it reports is not the number of bytes that were available.
+func ReportEOFSource(w *World, r *Report, n string, isStream func(ssa.Value) bool) {
+	r.Rule("R-EOFSOURCE", "a literal io.EOF / io.ErrUnexpectedEOF is returned only on an edge where a read on the input stream has failed (its error tested non-nil or == io.EOF) or delivered a short count (its own count compared with the size asked for): end of input is observed by reading, never predicted, so the returned count is the number of bytes that were available")
+	fn := findFunc(w, n)
+	if fn == nil {
+		r.Unknown("R-EOFSOURCE", n, "-", "function missing")
+		return
+	}
+	fa := w.FA(fn)
+	errIdx := -1
+	res := fn.Signature.Results()
+	for i := 0; i < res.Len(); i++ {
+		if isErrorType(res.At(i).Type()) {
+			errIdx = i
+		}
+	}
+	if errIdx < 0 {
+		return
+	}
+	ios := streamCalls(fn, isStream)
+	readErr := map[ssa.Value]bool{}
+	readCnt := map[ssa.Value]bool{}
+	for _, ic := range ios {
+		if ic.Count != nil {
+			readCnt[ic.Count] = true
+		}
+		for _, es := range errorCalls(fn) {
+			if es.Call == ic.Call && es.Err != nil {
+				readErr[es.Err] = true
+			}
+		}
+	}
+	bad := ""
+	nlit := 0
+	for _, ret := range returnsOf(fn) {
+		for _, leaf := range fa.leavesOf(ret.Results[errIdx], ret.Block(), 0) {
+			g, ok := isGlobalErrVarLoad(unwrapErr(leaf.V))
+			if !ok || (g != "io.EOF" && g != "io.ErrUnexpectedEOF") {
+				continue
+			}
+			nlit++
+			justified := false
+			for _, c := range leaf.Conds {
+				bo, ok := c.V.(*ssa.BinOp)
+				if !ok {
+					continue
+				}
+				for _, side := range [2][2]ssa.Value{{bo.X, bo.Y}, {bo.Y, bo.X}} {
+					a, b := side[0], side[1]
+					if readErr[a] {
+						if cst, ok := b.(*ssa.Const); ok && cst.IsNil() && (bo.Op == token.NEQ) == c.Pol {
+							justified = true // err != nil
+						}
+						if gn, ok := isGlobalErrVarLoad(b); ok && (gn == "io.EOF" || gn == "io.ErrUnexpectedEOF") && (bo.Op == token.EQL) == c.Pol {
+							justified = true // err == io.EOF
+						}
+					}
+					if readCnt[stripConv(a)] || readCnt[a] {
+						switch bo.Op {
+						case token.LSS, token.GEQ, token.NEQ, token.EQL, token.GTR, token.LEQ:
+							justified = true // the read's own count decides
+						}
+					}
+				}
+			}
+			if !justified {
+				bad = fmt.Sprintf("%s is returned at %s on an edge where no read on the input has failed or come up short: end of input is predicted, not observed, and the bytes still available are left unread", g, w.InstrPos(ret))
+			}
+		}
+	}
+	r.Check(bad == "", "R-EOFSOURCE", n, w.Pos(fn.Pos()), bad, fmt.Sprintf("%d literal end-of-input results, each on an edge of a failed or short read", nlit))
+}
